@@ -315,10 +315,17 @@ impl Check for C12 {
         for inmemory in [true, false] {
             for prog in &progs {
                 for h in &hist {
-                    let flushes: Vec<Option<usize>> = if quick || h.is_empty() {
+                    // a flush in the middle and one after the last write (a switch may be pending at either)
+                    let flushes: Vec<Option<usize>> = if h.is_empty() {
                         vec![None]
+                    } else if quick {
+                        if h.len() <= 2 && matches!(prog, Prog::SwitchAwait | Prog::SwitchPollAwait) {
+                            vec![None, Some(1), Some(h.len())]
+                        } else {
+                            vec![None]
+                        }
                     } else {
-                        vec![None, Some(1)]
+                        vec![None, Some(1), Some(h.len())]
                     };
                     for fl in flushes {
                         v.push(Scen {
